@@ -519,6 +519,68 @@ pub open spec fn rsorted_script(s: Seq<(EditOperation, usize, usize)>, i: int, j
     &&& forall|x: int| 0 <= x < s.len() ==> s[x].1 >= i && s[x].2 >= j
 }
 
+
+// ---------------------------------------------------------------- what "applying the script to a yields b" means
+/// `e` is a script in BACKTRACE order (last operation first in the vector's tail: e[k-1] is applied first, then e[k-2], ..).
+/// Apply its first k entries to the suffix a[ai..] while producing the suffix of b that starts at bj.  Each entry
+/// (op, i, j) says: copy a[ai..i] unchanged (that must bring the output position to j), then
+///   Insert: emit b[j];  Delete: skip a[i];  Replace: emit b[j] for a[i];  Swap: emit a[i+1], a[i] for a[i], a[i+1].
+pub open spec fn apply_bt(a: Seq<Seq<char>>, b: Seq<Seq<char>>, e: Seq<(EditOperation, usize, usize)>, k: int, ai: int, bj: int) -> Option<Seq<Seq<char>>>
+    decreases k
+{
+    if k <= 0 || k > e.len() {
+        if 0 <= ai <= a.len() { Some(a.subrange(ai, a.len() as int)) } else { None }
+    } else {
+        let (op, i, j) = e[k - 1];
+        if !(0 <= ai <= i <= a.len() && j == bj + (i - ai)) { None } else {
+            let pre = a.subrange(ai, i as int);
+            match op {
+                EditOperation::Insert => if j < b.len() { match apply_bt(a, b, e, k - 1, i as int, j + 1) { Some(r) => Some(pre + seq![b[j as int]] + r), None => None } } else { None },
+                EditOperation::Delete => if i < a.len() { match apply_bt(a, b, e, k - 1, i + 1, j as int) { Some(r) => Some(pre + r), None => None } } else { None },
+                EditOperation::Replace => if i < a.len() && j < b.len() { match apply_bt(a, b, e, k - 1, i + 1, j + 1) { Some(r) => Some(pre + seq![b[j as int]] + r), None => None } } else { None },
+                EditOperation::Swap => if i + 1 < a.len() { match apply_bt(a, b, e, k - 1, i + 2, j + 2) { Some(r) => Some(pre + seq![a[i + 1], a[i as int]] + r), None => None } } else { None },
+            }
+        }
+    }
+}
+/// the script `r` (in the order returned by `operations`) applied to `a`
+pub open spec fn apply_script(a: Seq<Seq<char>>, b: Seq<Seq<char>>, r: Seq<(EditOperation, usize, usize)>) -> Option<Seq<Seq<char>>> {
+    apply_bt(a, b, r.reverse(), r.len() as int, 0, 0)
+}
+proof fn lemma_apply_prefix(a: Seq<Seq<char>>, b: Seq<Seq<char>>, e0: Seq<(EditOperation, usize, usize)>, e1: Seq<(EditOperation, usize, usize)>, k: int, ai: int, bj: int)
+    requires 0 <= k <= e0.len(), k <= e1.len(), forall|x: int| 0 <= x < k ==> e0[x] == e1[x],
+    ensures apply_bt(a, b, e0, k, ai, bj) == apply_bt(a, b, e1, k, ai, bj),
+    decreases k
+{
+    if k > 0 {
+        let (op, i, j) = e0[k - 1];
+        lemma_apply_prefix(a, b, e0, e1, k - 1, i as int, j + 1);
+        lemma_apply_prefix(a, b, e0, e1, k - 1, i + 1, j as int);
+        lemma_apply_prefix(a, b, e0, e1, k - 1, i + 1, j + 1);
+        lemma_apply_prefix(a, b, e0, e1, k - 1, i + 2, j + 2);
+    }
+}
+/// one more unchanged character in front (the Keep step of the backtrace)
+proof fn lemma_apply_keep(a: Seq<Seq<char>>, b: Seq<Seq<char>>, e: Seq<(EditOperation, usize, usize)>, k: int, ai: int, bj: int)
+    requires 0 <= k <= e.len(), 1 <= ai <= a.len(), apply_bt(a, b, e, k, ai, bj).is_some(),
+    ensures apply_bt(a, b, e, k, ai - 1, bj - 1) == Some(seq![a[ai - 1]] + apply_bt(a, b, e, k, ai, bj).unwrap()),
+{
+    if k == 0 {
+        assert(a.subrange(ai - 1, a.len() as int) =~= seq![a[ai - 1]] + a.subrange(ai, a.len() as int));
+    } else {
+        let (op, i, j) = e[k - 1];
+        let pre = a.subrange(ai, i as int);
+        let pre2 = a.subrange(ai - 1, i as int);
+        assert(pre2 =~= seq![a[ai - 1]] + pre);
+        match op {
+            EditOperation::Insert => { let r = apply_bt(a, b, e, k - 1, i as int, j + 1).unwrap(); assert(pre2 + seq![b[j as int]] + r =~= seq![a[ai - 1]] + (pre + seq![b[j as int]] + r)); }
+            EditOperation::Delete => { let r = apply_bt(a, b, e, k - 1, i + 1, j as int).unwrap(); assert(pre2 + r =~= seq![a[ai - 1]] + (pre + r)); }
+            EditOperation::Replace => { let r = apply_bt(a, b, e, k - 1, i + 1, j + 1).unwrap(); assert(pre2 + seq![b[j as int]] + r =~= seq![a[ai - 1]] + (pre + seq![b[j as int]] + r)); }
+            EditOperation::Swap => { let r = apply_bt(a, b, e, k - 1, i + 2, j + 2).unwrap(); assert(pre2 + seq![a[i + 1], a[i as int]] + r =~= seq![a[ai - 1]] + (pre + seq![a[i + 1], a[i as int]] + r)); }
+        }
+    }
+}
+
 //@unit src/edit.rs fn operations
 pub fn operations(
     a: &str,
@@ -531,6 +593,8 @@ pub fn operations(
     ensures
         r.len() == dist(chars_of(a, use_graphemes), chars_of(b, use_graphemes), chars_of(a, use_graphemes).len(), chars_of(b, use_graphemes).len(), with_swap, spaces_insert_delete_only),
         sorted_script(r@),
+        // applying the script to a yields b
+        apply_script(chars_of(a, use_graphemes), chars_of(b, use_graphemes), r@) == Some(chars_of(b, use_graphemes)),
 {
     let a_cs = CS::new(a, use_graphemes);
     let b_cs = CS::new(b, use_graphemes);
@@ -548,45 +612,75 @@ pub fn operations(
     // backtrace
     // edit operations => 0 -> insert, 1 -> delete, 2 -> replace, 3 -> swap
     let mut edit_ops = vec![];
+    proof { assert(sa.subrange(n as int, n as int) =~= sb.subrange(m as int, m as int)); }
     while i > 0 || j > 0
         invariant
-            cols == m + 1, rows == n + 1, i <= n, j <= m, ops.len() == rows * cols,
+            cols == m + 1, rows == n + 1, i <= n, j <= m, ops.len() == rows * cols, n == sa.len(), m == sb.len(),
             forall|p: int, q: int| 0 <= p <= n && 0 <= q <= m ==> pred_ok(#[trigger] ocell(ops@, cols as int, p, q), sa, sb, p as nat, q as nat, sw, sp),
             edit_ops.len() + dist(sa, sb, i as nat, j as nat, sw, sp) == dist(sa, sb, n, m, sw, sp),
             rsorted_script(edit_ops@, i as int, j as int),
+            apply_bt(sa, sb, edit_ops@, edit_ops.len() as int, i as int, j as int) == Some(sb.subrange(j as int, m as int)),
         decreases i + j,
     {
         proof { lemma_idx(i as int, j as int, rows as int, cols as int); assert(pred_ok(ocell(ops@, cols as int, i as int, j as int), sa, sb, i as nat, j as nat, sw, sp)); }
         let op = &ops[i * cols + j];
+        let ghost e0 = edit_ops@;
+        let ghost (i0, j0) = (i as int, j as int);
+        let ghost rest = sb.subrange(j0, m as int);
         match op {
             EditOp::None => {
                 panic!("should not happen")
             }
             EditOp::Keep => {
+                proof {
+                    lemma_apply_keep(sa, sb, e0, e0.len() as int, i0, j0);
+                    assert(seq![sa[i0 - 1]] + rest =~= sb.subrange(j0 - 1, m as int));
+                }
                 i -= 1;
                 j -= 1;
             }
             EditOp::Insert => {
                 j -= 1;
                 edit_ops.push((EditOperation::Insert, i, j));
+                proof {
+                    lemma_apply_prefix(sa, sb, edit_ops@, e0, e0.len() as int, i0, j0);
+                    assert(sa.subrange(i0, i0) + seq![sb[j0 - 1]] + rest =~= sb.subrange(j0 - 1, m as int));
+                }
             }
             EditOp::Delete => {
                 i -= 1;
                 edit_ops.push((EditOperation::Delete, i, j));
+                proof {
+                    lemma_apply_prefix(sa, sb, edit_ops@, e0, e0.len() as int, i0, j0);
+                    assert(sa.subrange(i0 - 1, i0 - 1) + rest =~= rest);
+                }
             }
             EditOp::Replace => {
                 i -= 1;
                 j -= 1;
                 edit_ops.push((EditOperation::Replace, i, j));
+                proof {
+                    lemma_apply_prefix(sa, sb, edit_ops@, e0, e0.len() as int, i0, j0);
+                    assert(sa.subrange(i0 - 1, i0 - 1) + seq![sb[j0 - 1]] + rest =~= sb.subrange(j0 - 1, m as int));
+                }
             }
             EditOp::Swap => {
                 i -= 2;
                 j -= 2;
                 edit_ops.push((EditOperation::Swap, i, j));
+                proof {
+                    lemma_apply_prefix(sa, sb, edit_ops@, e0, e0.len() as int, i0, j0);
+                    assert(sa.subrange(i0 - 2, i0 - 2) + seq![sa[i0 - 1], sa[i0 - 2]] + rest =~= sb.subrange(j0 - 2, m as int));
+                }
             }
         }
     }
+    let ghost e_final = edit_ops@;
     edit_ops.reverse();
+    proof {
+        assert(edit_ops@.reverse() =~= e_final);
+        assert(sb.subrange(0, m as int) =~= sb);
+    }
     edit_ops
 }
 //@end
